@@ -1,1 +1,662 @@
-fn main() {}
+//! Engine B driver (C17).
+//!
+//!   coresim run --tier quick|thorough [--runs N] [--workers W] [--max-seconds S]
+//!   coresim replay <file>
+//!   coresim selftest
+//!   (internal) coresim worker ... | refserver A|B | exec
+//!
+//! Exit: 0 held, 1 violation, 2 harness error.
+
+use std::collections::{BTreeMap, BTreeSet};
+use std::io::{BufRead, BufReader, Read};
+use std::path::{Path, PathBuf};
+use std::process::{Command, Stdio};
+use std::time::Instant;
+
+use serde::{Deserialize, Serialize};
+use serde_json::json;
+use vsim::coresim::exec::{results_digest, run_scenario, shim_present, with_explicit};
+use vsim::coresim::refproc;
+use vsim::coresim::shrink::{Checker, ExecAnswer, ExecRequest, FreshExec, Shrinker17};
+use vsim::coresim::workload::gen_scenario;
+use vsim::coresim::{Op, Policy, Replay17, Scenario, Violation17};
+use vsim::rng::mix;
+
+const DEFAULT_SEED: u64 = 20260926;
+
+fn arg_value(args: &[String], name: &str) -> Option<String> {
+    args.iter().position(|a| a == name).and_then(|i| args.get(i + 1).cloned())
+}
+
+fn verif_dir() -> PathBuf {
+    PathBuf::from(std::env::var("VERIF_DIR").unwrap_or_else(|_| "/verif".into()))
+}
+
+fn shim_path() -> PathBuf {
+    std::env::var("VSIM_SHIM").map(PathBuf::from).unwrap_or_else(|_| verif_dir().join(".target/shim.so"))
+}
+
+fn load_fixtures() -> Vec<String> {
+    let root = std::env::var("VSIM_FIXTURES").unwrap_or_else(|_| "/repo/tests/fixtures".into());
+    let mut files: Vec<PathBuf> = Vec::new();
+    fn rec(p: &Path, out: &mut Vec<PathBuf>) {
+        let Ok(rd) = std::fs::read_dir(p) else { return };
+        for e in rd.flatten() {
+            let path = e.path();
+            if path.is_dir() {
+                rec(&path, out);
+            } else if path.extension().map(|x| x == "typ").unwrap_or(false) {
+                out.push(path);
+            }
+        }
+    }
+    rec(Path::new(&root), &mut files);
+    files.sort();
+    files.into_iter().filter_map(|f| std::fs::read_to_string(f).ok()).filter(|s| !s.is_empty() && s.len() <= 2500).collect()
+}
+
+#[derive(Serialize, Deserialize, Default, Clone, Debug)]
+struct WorkerStats {
+    runs: u64,
+    calls: u64,
+    calls_compared: u64,
+    yields: u64,
+    switches: u64,
+    switches_inside_call: u64,
+    abandons_planned: u64,
+    abandons_fired: u64,
+    calls_completed_after_an_abandon: u64,
+    takeovers: u64,
+    same_source_overlap_yields: u64,
+    runs_with_same_source_overlap: u64,
+    runs_with_twins: u64,
+    back_to_back_same_text_other_config: u64,
+    back_to_back_identical: u64,
+    max_concurrent_in_call: usize,
+    refs_computed: u64,
+    ref_panics: u64,
+    skipped_ref_panic: u64,
+    rerun_checked: u64,
+    rerun_log_mismatch: u64,
+    step_count_differs_from_solo: u64,
+    policies: BTreeMap<String, u64>,
+    ops: BTreeMap<String, u64>,
+    threads_hist: BTreeMap<String, u64>,
+    interleavings: BTreeSet<u64>,
+    nontrivial: BTreeSet<u64>,
+    errors: Vec<String>,
+}
+
+impl WorkerStats {
+    fn merge(&mut self, o: WorkerStats) {
+        self.runs += o.runs;
+        self.calls += o.calls;
+        self.calls_compared += o.calls_compared;
+        self.yields += o.yields;
+        self.switches += o.switches;
+        self.switches_inside_call += o.switches_inside_call;
+        self.abandons_planned += o.abandons_planned;
+        self.abandons_fired += o.abandons_fired;
+        self.calls_completed_after_an_abandon += o.calls_completed_after_an_abandon;
+        self.takeovers += o.takeovers;
+        self.same_source_overlap_yields += o.same_source_overlap_yields;
+        self.runs_with_same_source_overlap += o.runs_with_same_source_overlap;
+        self.runs_with_twins += o.runs_with_twins;
+        self.back_to_back_same_text_other_config += o.back_to_back_same_text_other_config;
+        self.back_to_back_identical += o.back_to_back_identical;
+        self.max_concurrent_in_call = self.max_concurrent_in_call.max(o.max_concurrent_in_call);
+        self.refs_computed += o.refs_computed;
+        self.ref_panics += o.ref_panics;
+        self.skipped_ref_panic += o.skipped_ref_panic;
+        self.rerun_checked += o.rerun_checked;
+        self.rerun_log_mismatch += o.rerun_log_mismatch;
+        self.step_count_differs_from_solo += o.step_count_differs_from_solo;
+        for (k, v) in o.policies {
+            *self.policies.entry(k).or_default() += v;
+        }
+        for (k, v) in o.ops {
+            *self.ops.entry(k).or_default() += v;
+        }
+        for (k, v) in o.threads_hist {
+            *self.threads_hist.entry(k).or_default() += v;
+        }
+        self.interleavings.extend(o.interleavings);
+        self.nontrivial.extend(o.nontrivial);
+        self.errors.extend(o.errors);
+    }
+}
+
+#[derive(Serialize, Deserialize, Clone, Debug)]
+struct FoundMsg {
+    index: u64,
+    scenario: Scenario,
+    violation: Violation17,
+    prefix_seeds: Vec<u64>,
+}
+
+#[derive(Serialize, Deserialize, Clone, Debug)]
+enum WorkerMsg {
+    Found(FoundMsg),
+    Stats(WorkerStats),
+    Sample(serde_json::Value),
+}
+
+fn policy_name(p: &Policy) -> String {
+    match p {
+        Policy::Uniform { p_milli } => format!("uniform(p={})", *p_milli as f64 / 1000.0),
+        Policy::Pct { d } => format!("pct(d={})", d),
+        Policy::Stall { .. } => "stall".into(),
+        Policy::CallAtomic => "call-atomic".into(),
+        Policy::Explicit(_) => "explicit".into(),
+    }
+}
+
+fn op_name(o: &Op) -> &'static str {
+    match o {
+        Op::Content => "format_content",
+        Op::Source => "format_source(shared)",
+        Op::Inspect => "format_source_inspect(shared)",
+        Op::Range { .. } => "format_source_range(shared,shared styler)",
+        Op::Width => "format_with_width",
+    }
+}
+
+fn sample_json(sc: &Scenario) -> serde_json::Value {
+    json!({
+        "seed": sc.seed,
+        "docs": sc.docs.iter().map(|d| vsim::util::excerpt(d.as_bytes(), 120)).collect::<Vec<_>>(),
+        "threads": sc.threads.iter().map(|t| t.iter().map(|c| format!("{}(doc {}, w={}, tab={}, reorder={})", op_name(&c.op), c.doc, c.cfg.column, c.cfg.tab, c.cfg.reorder)).collect::<Vec<_>>()).collect::<Vec<_>>(),
+        "policy": policy_name(&sc.policy),
+        "abandons": sc.abandons.iter().map(|a| format!("thread {} call {} at its point {}", a.tid, a.call, a.point)).collect::<Vec<_>>(),
+    })
+}
+
+fn cmd_worker(args: &[String]) -> i32 {
+    vsim::oracle::silence_panics();
+    let base: u64 = arg_value(args, "--base-seed").and_then(|x| x.parse().ok()).unwrap_or(DEFAULT_SEED);
+    let from: u64 = arg_value(args, "--from").and_then(|x| x.parse().ok()).unwrap_or(0);
+    let step: u64 = arg_value(args, "--step").and_then(|x| x.parse().ok()).unwrap_or(1);
+    let count: u64 = arg_value(args, "--count").and_then(|x| x.parse().ok()).unwrap_or(10);
+    let max_secs: u64 = arg_value(args, "--max-seconds").and_then(|x| x.parse().ok()).unwrap_or(60);
+    if !shim_present() {
+        eprintln!("worker: the interposer is not loaded");
+        return 2;
+    }
+    let exe = std::env::current_exe().unwrap();
+    let mut checker = match Checker::new(&exe, &shim_path(), base) {
+        Ok(c) => c,
+        Err(e) => {
+            eprintln!("worker: cannot start reference servers: {e}");
+            return 2;
+        }
+    };
+    let fixtures = load_fixtures();
+    let start = Instant::now();
+    let mut st = WorkerStats::default();
+    let mut prefix: Vec<u64> = Vec::new();
+    let mut found = 0;
+    for j in 0..count {
+        if start.elapsed().as_secs() >= max_secs || found >= 6 {
+            break;
+        }
+        let i = from + j * step;
+        let seed = mix(base, i);
+        let sc = gen_scenario(seed, &fixtures);
+        let out = run_scenario(&sc);
+        if out.hung {
+            st.errors.push(format!("seed {}: a simulated thread died or hung", seed));
+            break;
+        }
+        // ---- statistics and reach probes
+        st.runs += 1;
+        let ncalls: usize = sc.threads.iter().map(|t| t.len()).sum();
+        st.calls += ncalls as u64;
+        st.yields += out.stats.yields;
+        st.switches += out.stats.switches;
+        st.switches_inside_call += out.stats.switches_inside_call;
+        st.abandons_planned += sc.abandons.len() as u64;
+        st.abandons_fired += out.stats.abandons_fired;
+        st.takeovers += out.stats.takeovers;
+        st.same_source_overlap_yields += out.stats.same_source_overlap;
+        if out.stats.same_source_overlap > 0 {
+            st.runs_with_same_source_overlap += 1;
+        }
+        st.max_concurrent_in_call = st.max_concurrent_in_call.max(out.stats.max_concurrent_in_call);
+        *st.policies.entry(policy_name(&sc.policy)).or_default() += 1;
+        *st.threads_hist.entry(sc.threads.len().to_string()).or_default() += 1;
+        for t in &sc.threads {
+            for (k, c) in t.iter().enumerate() {
+                *st.ops.entry(op_name(&c.op).to_string()).or_default() += 1;
+                if k > 0 {
+                    if t[k - 1] == *c {
+                        st.back_to_back_identical += 1;
+                    } else if t[k - 1].doc == c.doc && t[k - 1].op == c.op && t[k - 1].cfg != c.cfg {
+                        st.back_to_back_same_text_other_config += 1;
+                    }
+                }
+            }
+        }
+        if out.stats.abandons_fired > 0 {
+            // calls that completed after an abandoned one (any thread)
+            for r in &out.results {
+                let mut seen = false;
+                for x in r {
+                    if *x == vsim::coresim::Res::Abandoned {
+                        seen = true;
+                    } else if seen {
+                        st.calls_completed_after_an_abandon += 1;
+                    }
+                }
+            }
+        }
+        if sc.docs.len() > 1 && sc.docs.iter().all(|d| d.lines().count() == sc.docs[0].lines().count() || true) {
+            // twins are generated from one shape seed; detect by equal marker prefix
+            let pref = |d: &str| vsim::clisim::model::markers_in(d).first().map(|m| m.split('x').next().unwrap_or("").to_string());
+            let p0 = pref(&sc.docs[0]);
+            if p0.is_some() && sc.docs[1..].iter().any(|d| pref(d) == p0 && *d != sc.docs[0]) {
+                st.runs_with_twins += 1;
+            }
+        }
+        st.interleavings.insert(out.stats.switch_digest ^ seed.rotate_left(7));
+        if ncalls >= 2 && out.stats.switches_inside_call > 0 {
+            st.nontrivial.insert(seed);
+        }
+        if j < 2 && from == 0 {
+            println!("{}", serde_json::to_string(&WorkerMsg::Sample(sample_json(&sc))).unwrap());
+        }
+        // ---- verdict
+        let viols = match checker.check(&sc, &out) {
+            Ok(v) => v,
+            Err(e) => {
+                st.errors.push(format!("seed {}: reference server: {}", seed, e));
+                break;
+            }
+        };
+        if let Some(v) = viols.into_iter().next() {
+            found += 1;
+            let explicit = with_explicit(&sc, &out.decisions);
+            println!("{}", serde_json::to_string(&WorkerMsg::Found(FoundMsg { index: i, scenario: explicit, violation: v, prefix_seeds: prefix.clone() })).unwrap());
+        } else if j % 40 == 3 {
+            // V17.4 + harness determinism: the same seed again, later in the same process
+            let out2 = run_scenario(&sc);
+            st.rerun_checked += 1;
+            if results_digest(&out2.results) != results_digest(&out.results) {
+                found += 1;
+                println!(
+                    "{}",
+                    serde_json::to_string(&WorkerMsg::Found(FoundMsg {
+                        index: i,
+                        scenario: with_explicit(&sc, &out.decisions),
+                        violation: Violation17 { invariant: "V17.4-rerun".into(), tid: 0, call: 0, message: "two executions of the same seed in one process returned different results".into() },
+                        prefix_seeds: prefix.clone(),
+                    }))
+                    .unwrap()
+                );
+            } else if out2.stats.log_digest != out.stats.log_digest {
+                st.rerun_log_mismatch += 1;
+            }
+            // observation (not a verdict): does a call pass the same number of points as alone?
+            for (a, b) in out.steps.iter().flatten().zip(out2.steps.iter().flatten()) {
+                if a != b {
+                    st.step_count_differs_from_solo += 1;
+                }
+            }
+        }
+        prefix.push(seed);
+    }
+    st.calls_compared = checker.compared;
+    st.refs_computed = checker.refs_computed;
+    st.ref_panics = checker.ref_panics;
+    st.skipped_ref_panic = checker.skipped_ref_panic;
+    println!("{}", serde_json::to_string(&WorkerMsg::Stats(st)).unwrap());
+    0
+}
+
+fn cmd_exec() -> i32 {
+    vsim::oracle::silence_panics();
+    let mut s = String::new();
+    if std::io::stdin().read_to_string(&mut s).is_err() {
+        return 2;
+    }
+    let Ok(req) = serde_json::from_str::<ExecRequest>(&s) else { return 2 };
+    let fixtures = load_fixtures();
+    for seed in &req.prefix_seeds {
+        let sc = gen_scenario(*seed, &fixtures);
+        let _ = run_scenario(&sc);
+    }
+    let out = run_scenario(&req.scenario);
+    let exe = std::env::current_exe().unwrap();
+    let mut violations = Vec::new();
+    if !out.hung {
+        match Checker::new(&exe, &shim_path(), 1).and_then(|mut c| c.check(&req.scenario, &out)) {
+            Ok(v) => violations = v,
+            Err(_) => return 2,
+        }
+    }
+    let ans = ExecAnswer {
+        violations,
+        result_digest: results_digest(&out.results),
+        log_digest: out.stats.log_digest,
+        decisions: out.decisions.clone(),
+        hung: out.hung,
+        takeovers: out.stats.takeovers,
+    };
+    println!("{}", serde_json::to_string(&ans).unwrap());
+    0
+}
+
+fn spawn_worker(exe: &Path, shim: &Path, base: u64, from: u64, step: u64, count: u64, max_secs: u64) -> std::io::Result<std::process::Child> {
+    Command::new(exe)
+        .args(["worker", "--base-seed", &base.to_string(), "--from", &from.to_string(), "--step", &step.to_string(), "--count", &count.to_string(), "--max-seconds", &max_secs.to_string()])
+        .env("LD_PRELOAD", shim)
+        .env("VSIM_SEED", base.to_string())
+        .env("VSIM_SHIM", shim)
+        .stdin(Stdio::null())
+        .stdout(Stdio::piped())
+        .stderr(Stdio::inherit())
+        .spawn()
+}
+
+struct Batch {
+    stats: WorkerStats,
+    found: Vec<FoundMsg>,
+    samples: Vec<serde_json::Value>,
+    worker_failures: Vec<String>,
+}
+
+fn run_batch(base: u64, runs: u64, workers: u64, max_secs: u64) -> Batch {
+    let exe = std::env::current_exe().unwrap();
+    let shim = shim_path();
+    let per = runs.div_ceil(workers);
+    let mut children = Vec::new();
+    for w in 0..workers {
+        match spawn_worker(&exe, &shim, base, w, workers, per, max_secs) {
+            Ok(c) => children.push((w, c)),
+            Err(e) => eprintln!("cannot spawn worker {w}: {e}"),
+        }
+    }
+    let mut b = Batch { stats: WorkerStats::default(), found: vec![], samples: vec![], worker_failures: vec![] };
+    // read all workers concurrently
+    let mut readers = Vec::new();
+    for (w, mut c) in children {
+        let out = c.stdout.take().unwrap();
+        readers.push(std::thread::spawn(move || {
+            let mut msgs = Vec::new();
+            for line in BufReader::new(out).lines().map_while(Result::ok) {
+                if let Ok(m) = serde_json::from_str::<WorkerMsg>(&line) {
+                    msgs.push(m);
+                }
+            }
+            let status = c.wait().ok();
+            (w, msgs, status)
+        }));
+    }
+    for r in readers {
+        let Ok((w, msgs, status)) = r.join() else { continue };
+        let mut got_stats = false;
+        for m in msgs {
+            match m {
+                WorkerMsg::Found(f) => b.found.push(f),
+                WorkerMsg::Stats(s) => {
+                    got_stats = true;
+                    b.stats.merge(s)
+                }
+                WorkerMsg::Sample(s) => b.samples.push(s),
+            }
+        }
+        if !got_stats || status.map(|s| !s.success()).unwrap_or(true) {
+            b.worker_failures.push(format!("worker {} ended abnormally ({:?})", w, status));
+        }
+    }
+    b
+}
+
+fn cmd_run(args: &[String]) -> i32 {
+    let tier = arg_value(args, "--tier").unwrap_or_else(|| std::env::var("VERIF_TIER").unwrap_or_else(|_| "quick".into()));
+    let base = vsim::util::env_u64("VERIF_SEED").unwrap_or(DEFAULT_SEED);
+    let workers: u64 = arg_value(args, "--workers").and_then(|x| x.parse().ok()).unwrap_or(16);
+    let (def_runs, def_secs) = if tier == "thorough" { (3_000_000u64, 600u64) } else { (60_000u64, 60u64) };
+    let runs: u64 = arg_value(args, "--runs").and_then(|x| x.parse().ok()).unwrap_or(def_runs);
+    let max_secs: u64 = arg_value(args, "--max-seconds").and_then(|x| x.parse().ok()).unwrap_or(def_secs);
+    println!("coresim: property=C17 tier={} VERIF_SEED={} runs<={} workers={} wall<={}s", tier, base, runs, workers, max_secs);
+    let start = Instant::now();
+    let b = run_batch(base, runs, workers, max_secs);
+    let explore_wall = start.elapsed().as_secs_f64();
+
+    // ---- triage: one minimised replay per invariant
+    let mut groups: BTreeMap<String, Vec<FoundMsg>> = BTreeMap::new();
+    for f in b.found {
+        groups.entry(f.violation.invariant.clone()).or_default().push(f);
+    }
+    let mut violations = 0;
+    let mut reported = Vec::new();
+    let exe = std::env::current_exe().unwrap();
+    for (invariant, fs) in &groups {
+        let f = fs.iter().min_by_key(|f| serde_json::to_string(&f.scenario).map(|s| s.len()).unwrap_or(0)).unwrap();
+        let mut fx = FreshExec { exe: exe.clone(), shim: shim_path(), runs: 0 };
+        let mut sh = Shrinker17 { fx: &mut fx, invariant: invariant.clone(), budget: 400 };
+        let (sc, prefix, v, digest, note) = match sh.shrink(&f.scenario, &f.prefix_seeds) {
+            Some((sc, prefix, ans)) => {
+                let v = ans.violations.iter().find(|v| v.invariant == *invariant).cloned().unwrap_or(f.violation.clone());
+                (sc, prefix, v, ans.result_digest, format!("minimised in {} fresh-process executions from run index {} (seed {})", fx.runs, f.index, f.scenario.seed))
+            }
+            None => (f.scenario.clone(), f.prefix_seeds.clone(), f.violation.clone(), 0, "did not reproduce in a fresh process even with the worker's whole history; original scenario recorded (possible real-time dependence)".to_string()),
+        };
+        let dir = verif_dir().join("replays");
+        let _ = std::fs::create_dir_all(&dir);
+        let path = dir.join(format!("C17-{}-{}.json", invariant, sc.seed));
+        let rp = Replay17 { engine: "coresim".into(), property: "C17".into(), scenario: sc.clone(), prefix_seeds: prefix.clone(), violation: v.clone(), result_digest: digest, note };
+        let _ = std::fs::write(&path, serde_json::to_string_pretty(&rp).unwrap());
+        violations += 1;
+        println!("VIOLATION property=C17 replay={}", path.display());
+        println!("  invariant {}: {}", v.invariant, v.message);
+        println!("  seed={} threads={} calls={} prefix_runs={} ({} failing runs in this group)", sc.seed, sc.threads.len(), sc.threads.iter().map(|t| t.len()).sum::<usize>(), prefix.len(), fs.len());
+        reported.push(json!({"invariant": v.invariant, "message": v.message, "replay": path}));
+    }
+
+    let wall = start.elapsed().as_secs_f64();
+    let st = &b.stats;
+    let ev = json!({
+        "property_id": "C17",
+        "tier": tier,
+        "seed": base,
+        "level": "exploration",
+        "wall_s": wall,
+        "violations": violations,
+        "coverage": {
+            "evaluations": st.runs,
+            "distinct_nontrivial": st.nontrivial.len(),
+            "rule": "one evaluation = one simulated run: K real threads with scripts of library calls executed under the seeded baton scheduler (one PRNG decides every context switch and abandon fault), every returned result compared with fresh single-call processes in two worlds; non-trivial = at least two calls and at least one context switch that landed inside another call; distinct = distinct run seeds among those",
+            "samples": b.samples,
+            "runs_per_hour": if explore_wall > 0.0 { (st.runs as f64 / explore_wall * 3600.0) as u64 } else { 0 },
+            "seeds": {"base": base, "derivation": "seed_i = mix(base, i)", "runs": st.runs},
+            "simulated_time": {"scheduler_steps": st.yields, "note": "the library has no timers; simulated time is the number of scheduling points (hook points + call boundaries) the scheduler decided"},
+            "calls": st.calls,
+            "calls_compared_with_reference": st.calls_compared,
+            "fault_kinds_fired": {
+                "preemption(context switch)": st.switches,
+                "preemption inside another call": st.switches_inside_call,
+                "abandon(unwind) fired": st.abandons_fired,
+                "abandon planned": st.abandons_planned,
+            },
+            "reach_probes": {
+                "calls completed after an abandoned call": st.calls_completed_after_an_abandon,
+                "runs where two threads were inside a call on the same shared Source at once": st.runs_with_same_source_overlap,
+                "runs with shape-twin documents (colliding spans, different attributes)": st.runs_with_twins,
+                "back-to-back same text, other config": st.back_to_back_same_text_other_config,
+                "back-to-back identical call": st.back_to_back_identical,
+                "max threads simultaneously inside a call": st.max_concurrent_in_call,
+            },
+            "distinct_interleavings": st.interleavings.len(),
+            "distinct_interleavings_measure": "distinct digests of the context-switch sequence (yield index, from, to) per run seed",
+            "policies": st.policies,
+            "operations": st.ops,
+            "threads_per_run": st.threads_hist,
+            "references": {"computed_in_fresh_processes": st.refs_computed, "single_calls_that_panic_on_their_own(skipped)": st.ref_panics, "comparisons_skipped_for_that_reason": st.skipped_ref_panic},
+            "determinism": {"seeds_rerun_in_process": st.rerun_checked, "schedule_log_mismatches": st.rerun_log_mismatch, "baton_takeovers(real lock suspected)": st.takeovers},
+            "observations": {"calls_whose_step_count_differs_between_two_executions": st.step_count_differs_from_solo},
+            "reported": reported,
+            "harness_errors": st.errors.iter().chain(b.worker_failures.iter()).take(10).collect::<Vec<_>>(),
+            "real_vs_stub": {
+                "real": ["typstyle-core and typst-syntax from /repo (built with --cfg typstyle_verif)", "OS threads, thread-locals, allocator, atomics"],
+                "simulated": ["which thread runs between two hook points (seeded scheduler)", "abandon (unwind) of a call at a hook point", "OS randomness and clock (interposer, reseeded per run)", "process worlds for references (env, cwd, ASLR, thread, randomness)"],
+                "stub": ["none: the sequential specification is the code itself run alone in a fresh process"]
+            }
+        },
+        "assumptions": [
+            "code between two hook points (parsing in typst-syntax, rendering in the pretty crate) is atomic for this lane; the Miri lane (thorough) has no such limit",
+            "a reference is a fresh fork of a pristine single-threaded server process that never called the library",
+            "sampling, not proof"
+        ]
+    });
+    let evpath = arg_value(args, "--evidence").map(PathBuf::from).unwrap_or_else(|| verif_dir().join("evidence/C17.json"));
+    let _ = std::fs::create_dir_all(evpath.parent().unwrap());
+    let _ = std::fs::write(&evpath, serde_json::to_string_pretty(&ev).unwrap());
+    println!(
+        "coresim: {} runs, {} calls ({} compared), {} switches ({} inside calls), {} abandons fired, {} distinct interleavings, {:.1}s; evidence {}",
+        st.runs,
+        st.calls,
+        st.calls_compared,
+        st.switches,
+        st.switches_inside_call,
+        st.abandons_fired,
+        st.interleavings.len(),
+        wall,
+        evpath.display()
+    );
+    let harness_bad = !st.errors.is_empty() || !b.worker_failures.is_empty() || st.runs == 0;
+    if harness_bad {
+        for e in st.errors.iter().chain(b.worker_failures.iter()).take(10) {
+            eprintln!("HARNESS-ERROR: {}", e);
+        }
+    }
+    if violations > 0 {
+        1
+    } else if harness_bad {
+        2
+    } else {
+        0
+    }
+}
+
+fn cmd_replay(args: &[String]) -> i32 {
+    let Some(path) = args.first() else { return 2 };
+    let Ok(text) = std::fs::read_to_string(path) else {
+        eprintln!("cannot read {path}");
+        return 2;
+    };
+    let rp: Replay17 = match serde_json::from_str(&text) {
+        Ok(r) => r,
+        Err(e) => {
+            eprintln!("bad replay file: {e}");
+            return 2;
+        }
+    };
+    let mut fx = FreshExec { exe: std::env::current_exe().unwrap(), shim: shim_path(), runs: 0 };
+    let Some(ans) = fx.exec(&ExecRequest { scenario: rp.scenario.clone(), prefix_seeds: rp.prefix_seeds.clone() }) else {
+        eprintln!("HARNESS-ERROR: the fresh process did not answer");
+        return 2;
+    };
+    match ans.violations.iter().find(|v| v.invariant == rp.violation.invariant) {
+        Some(v) => {
+            println!("VIOLATION property=C17 replay={}", path);
+            println!("  invariant {}: {}", v.invariant, v.message);
+            println!("  result digest {:016x} (recorded {:016x}): {}", ans.result_digest, rp.result_digest, if ans.result_digest == rp.result_digest { "exact replay" } else { "DIFFERS" });
+            1
+        }
+        None => {
+            println!("replay: the recorded violation ({}) did not reproduce on this tree", rp.violation.invariant);
+            0
+        }
+    }
+}
+
+/// determinism proof: the same seeds in 16, 1 and 5 worker processes; per-seed result and
+/// schedule-log digests must agree
+fn cmd_selftest(args: &[String]) -> i32 {
+    let n: u64 = arg_value(args, "--cases").and_then(|x| x.parse().ok()).unwrap_or(600);
+    let base = vsim::util::env_u64("VERIF_SEED").unwrap_or(DEFAULT_SEED) ^ 0x17;
+    let exe = std::env::current_exe().unwrap();
+    let run = |workers: u64| -> BTreeMap<u64, String> {
+        let mut out = BTreeMap::new();
+        let per = n.div_ceil(workers);
+        let mut cs = Vec::new();
+        for w in 0..workers {
+            let c = Command::new(&exe)
+                .args(["digests", "--base-seed", &base.to_string(), "--from", &w.to_string(), "--step", &workers.to_string(), "--count", &per.to_string()])
+                .env("LD_PRELOAD", shim_path())
+                .env("VSIM_SEED", base.to_string())
+                .stdout(Stdio::piped())
+                .spawn();
+            if let Ok(c) = c {
+                cs.push(c);
+            }
+        }
+        for c in cs {
+            if let Ok(o) = c.wait_with_output() {
+                for line in String::from_utf8_lossy(&o.stdout).lines() {
+                    if let Some((i, d)) = line.split_once(' ') {
+                        if let Ok(i) = i.parse::<u64>() {
+                            if i < n {
+                                out.insert(i, d.to_string());
+                            }
+                        }
+                    }
+                }
+            }
+        }
+        out
+    };
+    let a = run(16);
+    let b = run(1);
+    let c = run(5);
+    let mut bad = 0;
+    for (i, d) in &a {
+        if b.get(i) != Some(d) || c.get(i) != Some(d) {
+            bad += 1;
+            if bad <= 5 {
+                eprintln!("selftest: run index {} diverged: {} / {:?} / {:?}", i, d, b.get(i), c.get(i));
+            }
+        }
+    }
+    println!("coresim selftest: {} seeds x 3 executions (16, 1 and 5 worker processes): {} divergences", a.len(), bad);
+    if bad > 0 || a.len() as u64 != n {
+        2
+    } else {
+        0
+    }
+}
+
+fn cmd_digests(args: &[String]) -> i32 {
+    vsim::oracle::silence_panics();
+    let base: u64 = arg_value(args, "--base-seed").and_then(|x| x.parse().ok()).unwrap_or(DEFAULT_SEED);
+    let from: u64 = arg_value(args, "--from").and_then(|x| x.parse().ok()).unwrap_or(0);
+    let step: u64 = arg_value(args, "--step").and_then(|x| x.parse().ok()).unwrap_or(1);
+    let count: u64 = arg_value(args, "--count").and_then(|x| x.parse().ok()).unwrap_or(10);
+    let fixtures = load_fixtures();
+    for j in 0..count {
+        let i = from + j * step;
+        let sc = gen_scenario(mix(base, i), &fixtures);
+        let out = run_scenario(&sc);
+        println!("{} {:016x}-{:016x}-{:016x}-{}", i, results_digest(&out.results), out.stats.log_digest, out.stats.switch_digest, out.stats.takeovers);
+    }
+    0
+}
+
+fn main() {
+    let args: Vec<String> = std::env::args().skip(1).collect();
+    let code = match args.first().map(|s| s.as_str()) {
+        Some("run") => cmd_run(&args[1..]),
+        Some("worker") => cmd_worker(&args[1..]),
+        Some("refserver") => refproc::serve(args.get(1).map(|s| s == "B").unwrap_or(false)),
+        Some("exec") => cmd_exec(),
+        Some("replay") => cmd_replay(&args[1..]),
+        Some("selftest") => cmd_selftest(&args[1..]),
+        Some("digests") => cmd_digests(&args[1..]),
+        _ => {
+            eprintln!("usage: coresim run|replay|selftest ...");
+            2
+        }
+    };
+    std::process::exit(code);
+}
